@@ -264,6 +264,31 @@ PROPS["C13"] = {
     "thorough": {"cases": 300000, "floor": 50000, "time_budget": 3000},
 }
 
+PROPS["C20"] = {
+    "worker": "c20", "variant": "chk", "level": "exploration",
+    "rule": ("case = small multi-frame image with reference chains (blend over slots, ReferenceOnly frames, crops) x 2..3 caller threads each "
+             "running a script of 1..3 render_frame(k) calls on one shared JxlImage (same keyframe or keyframes sharing references), pool none, "
+             "1/3 with an injected allocation failure (hook H1). The REAL code runs under a baton scheduler built on hook H2: every lock "
+             "acquisition of a render handle is a scheduling point (try_lock probe decides whether it would block), condvar waits park the "
+             "thread, notify_all wakes it; 12 (quick) / 40 (thorough) schedules per case from a seeded uniform random walk or a PCT-style "
+             "priority schedule with 3 change points. Deadlock = unfinished callers and nothing runnable (logical verdict with trace). "
+             "Oracle: every caller returns; never two overlapping render executions of one frame; every Ok result bit-identical to the "
+             "single-caller render; errors only when a fault was injected. signature = (frame-type sequence, thread count, fault, keyframes); "
+             "non-trivial iff some context switch happened while a frame was in state Rendering; observed distinct_schedules / "
+             "distinct_protocol_states are measured per run"),
+    "assumptions": [
+        "schedule exploration is random / PCT, not exhaustive DFS; pool none (callers are the only threads) - rayon-pool callers are covered by C07's stress and TSan runs",
+        "scheduling points are the render-handle lock acquisitions and condvar operations exposed by hook H2; other mutexes (colour transform cache, DCT tables) are held only briefly without scheduling points inside",
+        "a 30 s no-progress watchdog yields 'inconclusive'",
+    ],
+    "level_text": ("exploration of interleavings of the real code under a deterministic baton scheduler: thousands of distinct schedules per "
+                   "quick run with logical deadlock detection, overlap detection and differential result check"),
+    "level_note": "trusted: hook H2 event placement (add-only), the scheduler in c20.rs",
+    "technique": "controlled-schedule concurrency testing of the real code (hook-driven baton scheduler, random + PCT strategies) with online protocol monitors",
+    "quick": {"cases": 1500, "floor": 200, "time_budget": 240},
+    "thorough": {"cases": 40000, "floor": 5000, "time_budget": 3000},
+}
+
 ALL = ["C%02d" % i for i in range(1, 21)]
 HOOK_COMMITS = ["27cc801", "8f68576", "99816ae", "c29f982"]
 NOT_APPLICABLE = {p: "check not built yet in this session (work in progress; see DESIGN.md section 9 for order)" for p in ALL if p not in PROPS}
